@@ -396,7 +396,7 @@ class SymInt(object):
         return sym_abs(self)
 
     def bit_length(self):
-        return cur().bit_length(self)
+        return SymBitLength(self)
 
     # ------------------------------------------------------------------ comparisons
     def _cmp(self, o, op):
@@ -446,6 +446,82 @@ class SymInt(object):
         return "<SymInt cv=%r %d terms>" % (self.cv, len(self.t))
 
     __str__ = __repr__
+
+
+class SymBitLength(object):
+    """Result of SymInt.bit_length(): comparisons with constants become comparisons on |x|
+    (no fork); any other use concretises (one fork per feasible length class)."""
+
+    __slots__ = ("x", "_v")
+
+    def __init__(self, x):
+        self.x = x
+        self._v = None
+
+    def _abs(self):
+        return sym_abs(self.x)
+
+    def concrete(self):
+        if self._v is None:
+            self._v = cur().bit_length(self.x)
+        return self._v
+
+    # bit_length(x) > n  <=>  |x| >= 2**n   (n >= 0)
+    def __gt__(self, n):
+        if isinstance(n, int) and n >= 0 and self._v is None:
+            return self._abs() >= (1 << n)
+        return self.concrete() > n
+
+    def __ge__(self, n):
+        if isinstance(n, int) and n >= 1 and self._v is None:
+            return self._abs() >= (1 << (n - 1))
+        return self.concrete() >= n
+
+    def __le__(self, n):
+        if isinstance(n, int) and n >= 0 and self._v is None:
+            return self._abs() < (1 << n)
+        return self.concrete() <= n
+
+    def __lt__(self, n):
+        if isinstance(n, int) and n >= 1 and self._v is None:
+            return self._abs() < (1 << (n - 1))
+        return self.concrete() < n
+
+    def __eq__(self, n):
+        return self.concrete() == n
+
+    def __ne__(self, n):
+        return self.concrete() != n
+
+    def __hash__(self):
+        return hash(self.concrete())
+
+    def __index__(self):
+        return self.concrete()
+
+    __int__ = __index__
+
+    def __add__(self, o):
+        return self.concrete() + o
+
+    __radd__ = __add__
+
+    def __sub__(self, o):
+        return self.concrete() - o
+
+    def __rsub__(self, o):
+        return o - self.concrete()
+
+    def __mul__(self, o):
+        return self.concrete() * o
+
+    __rmul__ = __mul__
+
+    def __format__(self, spec):
+        return format(self.concrete(), spec)
+
+    def __repr__(self):
+        return "<SymBitLength of %r>" % (self.x,)
 
 
 def compare0(d, op):
@@ -1304,19 +1380,37 @@ class Ctx(object):
         raise EngineError("bitwise and of two symbolic integers with overlapping bit ranges")
 
     def bit_length(self, x):
-        n = builtins.abs(x.cv).bit_length()
+        """Concrete bit length of |x|: one fork per feasible length class (payload = the class)."""
         ax = sym_abs(x)
-        if n == 0:
-            c = compare0(ax, "==")
-            if c is not True:
-                self.branch_true(c)
-            return n
-        lo = compare0(ax - (1 << (n - 1)), ">=")
-        hi = compare0(ax - ((1 << n) - 1), "<=")
-        for c1 in (lo, hi):
-            if c1 is not True:
-                self.branch_true(c1)
-        return n
+        while True:
+            i = len(self.decisions)
+            if i < len(self.prefix):
+                ent = self.prefix[i]
+                if not isinstance(ent, tuple):
+                    raise EngineError("replay divergence: expected a bit-length class at %d" % i)
+                n = ent[0]
+            else:
+                n = builtins.abs(cv_of(x)).bit_length()
+            if n == 0:
+                c = compare0(ax, "==") if is_sym(ax) else (ax == 0)
+            else:
+                lo = (ax >= (1 << (n - 1)))
+                hi = (ax <= ((1 << n) - 1))
+                if lo is True:
+                    c = hi
+                elif hi is True:
+                    c = lo
+                elif lo is False or hi is False:
+                    c = False
+                else:
+                    c = SymBool.formula(z3.And(lo.z(), hi.z()), lo.cv and hi.cv)
+            if c is True:
+                return n
+            if c is False:
+                raise EngineError("bit-length class excluded by intervals")
+            if self.branch(c, payload=n):
+                return n
+            ax = sym_abs(x)
 
     # ------------------------------------------------------------------ branching
     def _flush(self):
